@@ -484,6 +484,8 @@ fn run_verify<S: ShortGroupSignatureScheme>(v: &Value, w: &World<S>) -> Value {
             _ => "decode-err",
         }
     };
+    // the original presentation after the same value-tree round trip (map order canonicalised)
+    let p_rt_bytes: Option<Vec<u8>> = from_tree::<Presentation<S>>(&tp).ok().and_then(|q| serde_cbor::to_vec(&q).ok());
     let mut results = vec![];
     for i in selected(&v["sel"], pts.len()) {
         let pt = &pts[i];
@@ -499,6 +501,8 @@ fn run_verify<S: ShortGroupSignatureScheme>(v: &Value, w: &World<S>) -> Value {
             (Ok(pm), Ok(sm)) => {
                 let out = class(catch_unwind(AssertUnwindSafe(|| pm.verify(&sm, &w.nonce))));
                 let abs = verify_abs(&pm, &sm);
+                // is the decoded object the original one (a mutation the decoder normalises away)?
+                let same = obj == "pres" && serde_cbor::to_vec(&pm).ok() == p_rt_bytes;
                 // the decryption entry points take the same prover-supplied proofs
                 let mut dec = vec![];
                 // (brute-force scalar decryption is expensive: only when the mutation touched such a proof)
@@ -522,7 +526,7 @@ fn run_verify<S: ShortGroupSignatureScheme>(v: &Value, w: &World<S>) -> Value {
                     }
                 }
                 let dec_panic = dec.iter().any(|x| *x == "panic");
-                results.push(with_at(json!({"i":i,"desc":d,"decode":"ok","out":out,"abs":abs,"dec_panic":dec_panic})));
+                results.push(with_at(json!({"i":i,"desc":d,"decode":"ok","out":out,"abs":abs,"dec_panic":dec_panic,"same":same})));
             }
             (Err(e), _) | (_, Err(e)) => {
                 let k = if e == "panic" { "panic" } else { "err" };
